@@ -574,8 +574,9 @@ def check(pid, tier, seed):
         if cr['error']:
             broken.append(('build', 'cfg probe: ' + cr['error']))
         else:
-            cfgp_viol = cr['violations']
-            cfgp_info = dict(pairs_compiled_and_compared=cr['pairs'], skipped_invalid=cr.get('skipped', 0), sample=cr['sample'])
+            cfgp_viol = cr['rule_violations'] if P['cfgprobe'] == 'rule' else cr['violations']
+            cfgp_info = dict(kind=P['cfgprobe'], pairs_compiled_and_compared=cr['pairs'], emitted_ids_compared_with_the_rule=cr['rule_checked'],
+                             skipped_invalid=cr.get('skipped', 0), sample=cr['sample'])
 
     side_info = None
     side_viol = []
@@ -828,7 +829,7 @@ def replay(path):
         return 0
     if j.get('harness') == 'cfg_probe':
         cr = cfg_probe.run(REPO, CACHE, j['seed'], 12)
-        hit = [v for v in cr['violations'] if v['pair'] == j['pair']]
+        hit = [v for v in cr['violations'] + cr['rule_violations'] if v['pair'] == j['pair']]
         print('recorded:', j['reason'])
         print('now:', hit[0]['what'] if hit else 'decorated and erased declarations agree', cr['error'] or '')
         if hit:
